@@ -209,6 +209,18 @@ func timing(q treq) tresp {
 			if q.Stall == "late" {
 				d = time.Duration(q.LateMs) * time.Millisecond
 			}
+			if q.Stall == "hangup" {
+				// the peer takes the request, stays silent for LateMs (less than the timeout) and hangs up without a
+				// word; it does so to every request it gets
+				if hj, ok := w.(http.Hijacker); ok {
+					if c, _, err := hj.Hijack(); err == nil {
+						time.Sleep(time.Duration(q.LateMs) * time.Millisecond)
+						c.Close()
+						return
+					}
+				}
+				panic(http.ErrAbortHandler)
+			}
 			if q.Stall == "body" || q.Stall == "midbody" {
 				// the response headers arrive at once, the body does not (midbody: after a part of it)
 				w.Header().Set("Content-Type", "application/x-frugal")
